@@ -253,23 +253,9 @@ PPL::Grid::Grid(const Polyhedron& ph,
 
 PPL::Grid&
 PPL::Grid::operator=(const Grid& y) {
-  space_dim = y.space_dim;
-  dim_kinds = y.dim_kinds;
-  if (y.marked_empty()) {
-    set_empty();
-  }
-  else if (space_dim == 0) {
-    set_zero_dim_univ();
-  }
-  else {
-    status = y.status;
-    if (y.congruences_are_up_to_date()) {
-      con_sys = y.con_sys;
-    }
-    if (y.generators_are_up_to_date()) {
-      gen_sys = y.gen_sys;
-    }
-  }
+  // Copy and swap: if the copy throws, `*this' is left untouched.
+  Grid tmp(y);
+  m_swap(tmp);
   return *this;
 }
 
